@@ -147,7 +147,7 @@ func c08Config(rep *verifkit.Report, rng *rand.Rand, up *sysUpstream, ci int) {
 		UpstreamPort: up.Port, QLogMemSize: []int{5000, 40}[ci%2], BindHost: bindHost,
 		ExtraTop: map[bool]string{true: c08DHCPConf, false: ""}[ci%3 == 0],
 		TLS:      "  enabled: false\n  allow_unencrypted_doh: true\n",
-		ExtraDNS: fmt.Sprintf("  refuse_any: %v\n", refuseAny),
+		ExtraDNS: fmt.Sprintf("  refuse_any: %v\n  aaaa_disabled: %v\n", refuseAny, ci%4 == 1),
 	})
 	if err != nil {
 		rep.Inconcl("start: " + err.Error())
@@ -342,7 +342,9 @@ func c08Config(rep *verifkit.Report, rng *rand.Rand, up *sysUpstream, ci int) {
 		default:
 			q.Via = "udp"
 		}
-		if rng.Intn(10) == 0 {
+		if rng.Intn(10) == 0 && ci%4 != 1 {
+			// (With aaaa_disabled the program answers AAAA questions itself;
+			// whether it records them is not the subject here, see below.)
 			q.Qtype = dns.TypeAAAA
 		}
 		if !refuseAny && q.Via != "doh" && rng.Intn(8) == 0 {
@@ -424,6 +426,22 @@ func c08Config(rep *verifkit.Report, rng *rand.Rand, up *sysUpstream, ci int) {
 			rep.Class("queries_for_ignored_names_rewritten_to_a_name_whose_upstream_fails")
 			if resp.Rcode == dns.RcodeServerFailure {
 				rep.Class("queries_for_ignored_names_rewritten_to_a_name_whose_upstream_fails_answered_servfail")
+			}
+		}
+	}
+	// With aaaa_disabled the program answers AAAA questions itself, early in
+	// its pipeline.  Whether it records such requests at all is its business,
+	// but those of a client that is flagged to be ignored - identified by its
+	// ClientID, from an address nobody owns - must not be recorded.
+	if ci%4 == 1 {
+		for k := 0; k < 3; k++ {
+			u := fmt.Sprintf("aq%d-%s", k, tag)
+			q := &c08Query{Unique: u, Src: "127.0.4.1", Qtype: dns.TypeAAAA, Via: "doh", ClientID: "hidden-cid", Client: "ign-cid-both", Anon: anonNow, Logged: false, Counted: false}
+			q.Name = u + ".plain.verif.example"
+			if q.Answered = c08DoH(in, q.Src, q.ClientID, q.Name, q.Qtype); q.Answered {
+				qs = append(qs, q)
+				rep.Eval(true, fmt.Sprintf("%d|aaaa-disabled-flagged-clientid|%d", ci, k))
+				rep.Class("aaaa_questions_of_a_flagged_clientid_client_with_aaaa_disabled")
 			}
 		}
 	}
